@@ -46,7 +46,7 @@ theorem C11_refine_step (c : Cfg) (s s' : St) (op : Op) (r : Res)
   unfold Durable view at *
   simp only [View.mk.injEq] at hd
   obtain ⟨ha, hi, hh, hs, hf⟩ := hd
-  cases op <;> simp only [step, allowlistOp, keysend, newChannel, forgetChannel, restart] at h
+  cases op <;> simp only [step, allowlistOp, keysend, newChannel, forgetChannel, restart, heartbeat, addBlocks, removeBlock] at h
   all_goals (repeat' split at h)
   all_goals first
     | (cases h <;> simp_all)
